@@ -319,6 +319,55 @@ proof { lemma_flat_occ_stmts(pd.statements, name@, |s: Reference<Statement>| ids
             
 //@end
 
+
+// ---------- find_vars as a whole: the first procedure declaration of that name, nowhere else
+pub open spec fn as_proc(gd: Reference<GlobalDeclaration>) -> Option<(ProcedureDeclaration, usize)> {
+    match gd.reference { GlobalDeclaration::Procedure(pd) => Some((pd, gd.offset)), _ => None }
+}
+pub open spec fn is_named(pd: ProcedureDeclaration, proc_name: Seq<char>) -> bool { pd.name is Some && pd.name->0.value@ == proc_name }
+/// the first procedure declaration called `proc_name`, with the offset of its Reference
+pub open spec fn first_proc(gds: Seq<Reference<GlobalDeclaration>>, proc_name: Seq<char>, from: int) -> Option<(ProcedureDeclaration, usize)>
+    decreases gds.len() - from
+{
+    if from < 0 || from >= gds.len() { None }
+    else { match as_proc(gds[from]) { Some(x) => if is_named(x.0, proc_name) { Some(x) } else { first_proc(gds, proc_name, from + 1) }, None => first_proc(gds, proc_name, from + 1) } }
+}
+//~assume `xs.iter().filter_map(f).find(p)` returns the first Some result of f, in order, that satisfies p (std iterator semantics; R8)
+#[verifier::external_body]
+pub fn filter_map_find<'a, F: Fn(&'a Reference<GlobalDeclaration>) -> Option<(&'a ProcedureDeclaration, usize)>, P: Fn(&(&'a ProcedureDeclaration, usize)) -> bool>(
+        xs: &'a Vec<Reference<GlobalDeclaration>>, f: F, p: P, Ghost(proc_name): Ghost<Seq<char>>) -> (r: Option<(&'a ProcedureDeclaration, usize)>)
+    requires
+        forall|i: int| 0 <= i < xs@.len() ==> call_requires(f, (&#[trigger] xs@[i],)),
+        forall|i: int, o: Option<(&'a ProcedureDeclaration, usize)>| 0 <= i < xs@.len() && #[trigger] call_ensures(f, (&xs@[i],), o) ==> match as_proc(xs@[i]) { Some(x) => o is Some && *(o->0).0 == x.0 && (o->0).1 == x.1, None => o is None },
+        forall|x: (&'a ProcedureDeclaration, usize)| #[trigger] call_requires(p, (&x,)),
+        forall|x: (&'a ProcedureDeclaration, usize), b: bool| #[trigger] call_ensures(p, (&x,), b) ==> b == is_named(*x.0, proc_name),
+    ensures match first_proc(xs@, proc_name, 0) { Some(x) => r is Some && *(r->0).0 == x.0 && (r->0).1 == x.1, None => r is None },
+{ xs.iter().filter_map(f).find(p) }
+/// "the occurrences bound to the same declaration" of a parameter or local variable: those inside the first procedure declaration of that name
+pub open spec fn vars_of(name: Seq<char>, proc_name: Seq<char>, gds: Seq<Reference<GlobalDeclaration>>) -> Seq<Identifier> {
+    match first_proc(gds, proc_name, 0) { Some(x) => ids_plus(occ_proc(x.0, name), x.1 as int), None => Seq::empty() }
+}
+pub open spec fn vars_fit(name: Seq<char>, proc_name: Seq<char>, gds: Seq<Reference<GlobalDeclaration>>) -> bool {
+    match first_proc(gds, proc_name, 0) { Some(x) => fit_proc(x.0, name, x.1), None => true }
+}
+//@extract lsp4spl/src/features/references.rs :: fn find_vars
+//@ rewrite find_vars_closure_to_call procs_filter_map_find map_or_else_inline pd_tuple_param_to_let map_or_inline string_eq_proc_name
+//@ ret r
+//@ sig
+    requires vars_fit(name@, proc_name@, program.global_declarations@),
+    ensures r@ == vars_of(name@, proc_name@, program.global_declarations@), //# find_vars::in_the_first_procedure_of_that_name_and_nowhere_else
+//@ assume_body fn find_in_variable
+//@ assume_body fn find_in_expression
+//@ assume_body fn find_in_statement
+//@ closure |gd| : &Reference<GlobalDeclaration>
+ -> (o: Option<(&ProcedureDeclaration, usize)>)
+            ensures match as_proc(*gd) { Some(x) => o is Some && *(o->0).0 == x.0 && (o->0).1 == x.1, None => o is None }
+//@ closure |pd_| : &(&ProcedureDeclaration, usize)
+ -> (b: bool)
+            ensures b == is_named(*pd_.0, proc_name@)
+//@ after_closure |pd_|
+, Ghost(proc_name@)
+//@end
 // ---------- find_procs: calls of a procedure in every statement shape, and its declaration
 pub open spec fn pocc_stmt(s: Statement, name: Seq<char>) -> Seq<Identifier>
     decreases s, 0nat
@@ -410,6 +459,44 @@ proof { lemma_flat_pocc_stmts(pd.statements, name@, |s: Reference<Statement>| id
             
 //@end
 
+
+// ---------- find_procs as a whole: every procedure declaration, in source order
+pub open spec fn all_procs(gds: Seq<Reference<GlobalDeclaration>>, name: Seq<char>, n: nat) -> Seq<Identifier>
+    decreases n
+{
+    if n == 0 || n > gds.len() { Seq::empty() }
+    else { all_procs(gds, name, (n - 1) as nat) + (match as_proc(gds[n - 1]) { Some(x) => ids_plus(pocc_proc(x.0, name), x.1 as int), None => Seq::empty() }) }
+}
+pub open spec fn all_procs_fit(gds: Seq<Reference<GlobalDeclaration>>, name: Seq<char>) -> bool {
+    forall|i: int| 0 <= i < gds.len() ==> match as_proc(#[trigger] gds[i]) { Some(x) => pfit_stmts(x.0.statements, name, x.0.statements@.len()) && ids_fit(pocc_proc(x.0, name), x.1 as int), None => true }
+}
+//~assume `xs.iter().filter_map(f).flat_map(g).collect()` concatenates g over the Some results of f, in order (std iterator semantics; R8)
+#[verifier::external_body]
+pub fn filter_map_flat_map_collect<'a, F: Fn(&'a Reference<GlobalDeclaration>) -> Option<(&'a ProcedureDeclaration, usize)>, G: Fn((&'a ProcedureDeclaration, usize)) -> Vec<Identifier>>(
+        xs: &'a Vec<Reference<GlobalDeclaration>>, f: F, g: G, Ghost(name): Ghost<Seq<char>>) -> (r: Vec<Identifier>)
+    requires
+        forall|i: int| 0 <= i < xs@.len() ==> call_requires(f, (&#[trigger] xs@[i],)),
+        forall|i: int, o: Option<(&'a ProcedureDeclaration, usize)>| 0 <= i < xs@.len() && #[trigger] call_ensures(f, (&xs@[i],), o) ==> match as_proc(xs@[i]) { Some(x) => o is Some && *(o->0).0 == x.0 && (o->0).1 == x.1 && call_requires(g, (o->0,)), None => o is None },
+        forall|x: (&'a ProcedureDeclaration, usize), v: Vec<Identifier>| #[trigger] call_ensures(g, (x,), v) ==> v@ == ids_plus(pocc_proc(*x.0, name), x.1 as int),
+    ensures r@ == all_procs(xs@, name, xs@.len()),
+{ xs.iter().filter_map(f).flat_map(g).collect() }
+//@extract lsp4spl/src/features/references.rs :: fn find_procs
+//@ rewrite find_procs_closure_to_call procs_filter_map_flat_map
+//@ ret r
+//@ sig
+    requires all_procs_fit(program.global_declarations@, name@),
+    ensures r@ == all_procs(program.global_declarations@, name@, program.global_declarations@.len()), //# find_procs::every_procedure_declaration_in_source_order
+//@ assume_body fn find_in_statement
+//@ closure |gd| : &Reference<GlobalDeclaration>
+ -> (o: Option<(&ProcedureDeclaration, usize)>)
+            ensures match as_proc(*gd) { Some(x) => o is Some && *(o->0).0 == x.0 && (o->0).1 == x.1, None => o is None }
+//@ closure |pd_offset| : (&ProcedureDeclaration, usize)
+ -> (v: Vec<Identifier>)
+            requires pfit_stmts(pd_offset.0.statements, name@, pd_offset.0.statements@.len()) && ids_fit(pocc_proc(*pd_offset.0, name@), pd_offset.1 as int),
+            ensures v@ == ids_plus(pocc_proc(*pd_offset.0, name@), pd_offset.1 as int)
+//@ after_closure |pd_offset|
+, Ghost(name@)
+//@end
 // ---------- find_types::get_ident_in_type_expr: the type name at the bottom of a (nested) array type, with all offsets
 /// the named type a type expression bottoms out in, displaced by every Reference offset on the way (relative to the
 /// Reference that holds `t`'s own Reference)
@@ -450,6 +537,121 @@ pub open spec fn texpr_fits(t: Reference<TypeExpression>) -> bool
         decreases type_expr
 //@end
 
+
+// ---------- find_types: what one global declaration contributes
+pub open spec fn named(id: Option<Identifier>, name: Seq<char>) -> Seq<Identifier> {
+    match id { Some(i) => if i.value@ == name { seq![i] } else { Seq::empty() }, None => Seq::empty() }
+}
+pub open spec fn keep_named(id: Option<Identifier>, name: Seq<char>) -> Option<Identifier> {
+    match id { Some(i) => if i.value@ == name { Some(i) } else { None }, None => None }
+}
+/// the type name a parameter / variable declaration mentions, displaced by the declaration's Reference offset
+pub open spec fn param_type_occ(p: Reference<ParameterDeclaration>) -> Option<Identifier> {
+    match p.reference {
+        ParameterDeclaration::Valid { doc, is_ref, name, type_expr: Some(t), info } => match ident_of_texpr(t) { Some(id) => Some(id_plus(id, p.offset as int)), None => None },
+        _ => None,
+    }
+}
+pub open spec fn var_type_occ(v: Reference<VariableDeclaration>) -> Option<Identifier> {
+    match v.reference {
+        VariableDeclaration::Valid { doc, name, type_expr: Some(t), info } => match ident_of_texpr(t) { Some(id) => Some(id_plus(id, v.offset as int)), None => None },
+        _ => None,
+    }
+}
+pub open spec fn param_type_fits(p: Reference<ParameterDeclaration>) -> bool {
+    match p.reference {
+        ParameterDeclaration::Valid { doc, is_ref, name, type_expr: Some(t), info } => texpr_fits(t) && match ident_of_texpr(t) { Some(id) => range_fits(id.info.range, p.offset as int), None => true },
+        _ => true,
+    }
+}
+pub open spec fn var_type_fits(v: Reference<VariableDeclaration>) -> bool {
+    match v.reference {
+        VariableDeclaration::Valid { doc, name, type_expr: Some(t), info } => texpr_fits(t) && match ident_of_texpr(t) { Some(id) => range_fits(id.info.range, v.offset as int), None => true },
+        _ => true,
+    }
+}
+/// "the other occurrences bound to the same declaration", for a type: its own name where it is declared, and every type annotation that bottoms out in it
+pub open spec fn types_inner(gd: GlobalDeclaration, name: Seq<char>) -> Seq<Identifier> {
+    match gd {
+        GlobalDeclaration::Type(td) => named(td.name, name) + named(match td.type_expr { Some(t) => ident_of_texpr(t), None => None }, name),
+        GlobalDeclaration::Procedure(pd) =>
+            filter_ids(pd.parameters@, |p: Reference<ParameterDeclaration>| keep_named(param_type_occ(p), name), pd.parameters@.len())
+            + filter_ids(pd.variable_declarations@, |v: Reference<VariableDeclaration>| keep_named(var_type_occ(v), name), pd.variable_declarations@.len()),
+        GlobalDeclaration::Error(_) => Seq::empty(),
+    }
+}
+pub open spec fn types_in_decl(gd: Reference<GlobalDeclaration>, name: Seq<char>) -> Seq<Identifier> { ids_plus(types_inner(gd.reference, name), gd.offset as int) }
+pub open spec fn types_decl_fits(gd: Reference<GlobalDeclaration>, name: Seq<char>) -> bool {
+    (match gd.reference {
+        GlobalDeclaration::Type(td) => match td.type_expr { Some(t) => texpr_fits(t), None => true },
+        GlobalDeclaration::Procedure(pd) => (forall|i: int| 0 <= i < pd.parameters@.len() ==> param_type_fits(#[trigger] pd.parameters@[i]))
+            && (forall|i: int| 0 <= i < pd.variable_declarations@.len() ==> var_type_fits(#[trigger] pd.variable_declarations@[i])),
+        GlobalDeclaration::Error(_) => true,
+    }) && ids_fit(types_inner(gd.reference, name), gd.offset as int)
+}
+//~assume `xs.iter().filter_map(f).filter(p).collect()` keeps the Some results of f that satisfy p, in order (std iterator semantics; R8)
+#[verifier::external_body]
+pub fn filter_map_filter_collect<T, F: Fn(&T) -> Option<Identifier>, P: Fn(&Identifier) -> bool>(items: &Vec<T>, f: F, p: P, Ghost(gk): Ghost<spec_fn(T) -> Option<Identifier>>, Ghost(name): Ghost<Seq<char>>) -> (r: Vec<Identifier>)
+    requires
+        forall|i: int| 0 <= i < items@.len() ==> call_requires(f, (&#[trigger] items@[i],)),
+        forall|i: int, out: Option<Identifier>| 0 <= i < items@.len() && #[trigger] call_ensures(f, (&items@[i],), out) ==> keep_named(out, name) == gk(items@[i]),
+        forall|id: Identifier| #[trigger] call_requires(p, (&id,)),
+        forall|id: Identifier, b: bool| #[trigger] call_ensures(p, (&id,), b) ==> b == (id.value@ == name),
+    ensures r@ == filter_ids(items@, gk, items@.len()),
+{ items.iter().filter_map(f).filter(p).collect() }
+//@extract lsp4spl/src/features/references.rs :: fn find_types :: closure |gd|
+//@ rewrite filter_map_filter_collect map_inline vec_extend string_eq_str
+//@ lift pub fn find_types_in_decl(gd: &Reference<GlobalDeclaration>, name: &str) -> (r: Vec<Identifier>)
+//@ sig
+    requires types_decl_fits(*gd, name@),
+    ensures r@ == types_in_decl(*gd, name@), //# find_types::the_declared_name_and_every_annotation_that_bottoms_out_in_it
+//@ before "match gd.as_ref() {"
+use GlobalDeclaration::*; // in scope at the closure's place in find_types
+            
+//@ before "idents\n                }\n                Procedure(pd)"
+proof { assert(idents@ =~= types_inner(gd.reference, name@)); }
+                    
+//@ before "idents\n                }\n                Error(_)"
+proof { assert(idents@ =~= types_inner(gd.reference, name@)); }
+                    
+//@ closure |param| : &Reference<ParameterDeclaration>
+ -> (out: Option<Identifier>)
+                            requires param_type_fits(*param),
+                            ensures out == param_type_occ(*param),
+//@ closure |vd| : &Reference<VariableDeclaration>
+ -> (out: Option<Identifier>)
+                            requires var_type_fits(*vd),
+                            ensures out == var_type_occ(*vd),
+//@ closure |ident| nth 0 of 2 : &Identifier
+ -> (b: bool)
+                            ensures b == (ident.value@ == name@)
+//@ after_closure |ident| nth 0 of 2
+, Ghost(|p: Reference<ParameterDeclaration>| keep_named(param_type_occ(p), name@)), Ghost(name@)
+//@ closure |ident| nth 1 of 2 : &Identifier
+ -> (b: bool)
+                            ensures b == (ident.value@ == name@)
+//@ after_closure |ident| nth 1 of 2
+, Ghost(|v: Reference<VariableDeclaration>| keep_named(var_type_occ(v), name@)), Ghost(name@)
+//@end
+
+// ---------- find_types as a whole: every global declaration, in source order
+pub open spec fn all_types_fit(gds: Seq<Reference<GlobalDeclaration>>, name: Seq<char>) -> bool {
+    forall|i: int| 0 <= i < gds.len() ==> types_decl_fits(#[trigger] gds[i], name)
+}
+//@extract lsp4spl/src/features/references.rs :: fn find_types
+//@ rewrite find_types_closure_to_call flat_map_collect
+//@ ret r
+//@ sig
+    requires all_types_fit(program.global_declarations@, name@),
+    ensures r@ == flat_ids(program.global_declarations@, |gd: Reference<GlobalDeclaration>| types_in_decl(gd, name@), program.global_declarations@.len()), //# find_types::every_global_declaration_in_source_order
+//@ assume_body fn get_ident_in_type_expr
+//@ closure |gd| : &Reference<GlobalDeclaration>
+ -> (v: Vec<Identifier>)
+            requires types_decl_fits(*gd, name@),
+            ensures v@ == types_in_decl(*gd, name@)
+//@ after_closure |gd|
+, Ghost(|gd: Reference<GlobalDeclaration>| types_in_decl(gd, name@))
+//@end
 pub proof fn witness_refs(id: Identifier) {
     let v = Variable::NamedVariable(id);
     assert(offsets_fit_var(v, id.value@));
